@@ -1,30 +1,19 @@
-"""C02 — RwLock: writer exclusion, reader sharing, visibility, try variants; every schedule."""
-import os
+"""C02 — RwLock: writer exclusion, reader sharing, visibility, try variants; every schedule.
 
-from . import common as C
-from . import sync_extract
+Uses the engine of checks/c01.py (`run_sync`): the model's ordering bits, spin budget and futex key kind are
+obtained from what the running code does (orderings logged with every atomic operation and replayed event by event
+by `drv_c02`; Gen/RwObs.lean), and from the static, role-based site table (Gen/SyncSites.lean) whenever that was
+understood — never from the position of a call site."""
 from . import c01 as M
 
-ACQ, REL, ORDMAP = M.ACQ, M.REL, M.ORDMAP
 
-
-def cfg_from_table(t):
-    r = t["tables"]["rwlock"]
-
-    def o(k, j=0):
-        try:
-            return ORDMAP[r[k]["ords"][j]]
-        except Exception:
-            return "rlx"
-    return {
-        "readAcq": all(o(k) in ACQ for k in (0, 2, 4)),
-        "writeAcq": all(o(k) in ACQ for k in (7, 8, 10)),
-        "readRel": o(3) in REL, "writeRel": o(9) in REL, "spin": max(0, int(t["extra"].get("rwlock_spin", 100))),
-    }
-
-
-def cfg_bits(c):
-    return "%d %d %d %d %d" % (c["readAcq"], c["writeAcq"], c["readRel"], c["writeRel"], c["spin"])
+def rw_cases(ctx, release):
+    n = (5000 if ctx.tier == "quick" else 100000) // (3 if release else 1)
+    cases = M.gen_cases(ctx, "rw", n)
+    for k in range(80 if ctx.tier == "quick" else 800):
+        progs = ["w2 r1 | w1 | r1 w0 | tr1 tw0", "w1 | w1 | w1 | r1", "r2 | r1 | w1 r0 | w0", "w2 | r0 r0 | r1 | tw1 w0"][k % 4]
+        cases.append("rw %d 14000 %d %d %d %d : %s" % (2000 + k, [0, 50, 90][k % 3], [0, 5][k % 2], [0, 20][(k // 2) % 2], 1 + k % 15, progs))
+    return cases
 
 
 def run(ctx):
@@ -39,100 +28,9 @@ def run(ctx):
         "wake-up: reader queue proved for all executions; writer queue proved for executions whose two hand-shake loads (writer_notify Acquire load, re-read of state) observe current values and without writer_notify wrap (ReachableW); the derived no-deadlock statement is NOT proved: stated in Props/C02.lean, supported by the deadlock and livelock oracles of the schedule exploration",
         "no-panic of the two assert!s is proved only as far as `rw_write_unlock_leaves_unlocked`; the `too many active read locks` assert is reachable in the model through stale loads and is not claimed",
     ]
-    table = sync_extract.generate()
-    cfg = cfg_from_table(table)
-    ctx.extra["extracted_cfg"] = cfg
-    ok = C.lean_prove(ctx, "TinyVerif.Props.C02", drivers=["drv_c02"], more_props=["TinyVerif.Props.C02Live"])
-    ctx.trusted.append("checks/sync_extract.py (translator of atomic call sites; cross-checked each run against the orderings/operands the running code passes to the shimmed atomics)")
-    # the exploration runs on a debug build (overflow checks, debug_assert!) and on a release build (neither)
-    for release in (False, True):
-        exe, err = C.cargo_build(ctx, "c01", release=release)
-        if exe is None:
-            ctx.broken.append({"harness_build_failed": err})
-            ctx.violation({"kind": "harness-build-failed"}, {"error": err}, no_input=True)
-            return
-        n = (5000 if ctx.tier == "quick" else 100000) // (3 if release else 1)
-        cases = M.gen_cases(ctx, "rw", n)
-        for k in range(80 if ctx.tier == "quick" else 800):
-            progs = ["w2 r1 | w1 | r1 w0 | tr1 tw0", "w1 | w1 | w1 | r1", "r2 | r1 | w1 r0 | w0", "w2 | r0 r0 | r1 | tw1 w0"][k % 4]
-            cases.append("rw %d 14000 %d %d %d %d : %s" % (2000 + k, [0, 50, 90][k % 3], [0, 5][k % 2], [0, 20][(k // 2) % 2], 1 + k % 15, progs))
-        chunks = [cases[i::16] for i in range(16)]
-        import concurrent.futures as cf
-        outs = {}
-
-        def work(chunk):
-            rc, o, e = C.run_filter([exe], chunk, timeout=3000)
-            return chunk, o, rc
-
-        with cf.ThreadPoolExecutor(16) as ex:
-            for chunk, o, rc in ex.map(work, chunks):
-                if len(o) != len(chunk):
-                    if o and o[-1].startswith("livelock"):
-                        idx = len(o) - 1
-                        ctx.violation({"kind": "livelock"},
-                                      {"case": chunk[idx], "verdict": "livelock: a thread never returned from read()/write()/unlock although every holder released (threads free-running for 20 s)",
-                                       "trace_tail": o[-1].split(" :: ", 1)[-1].split(" ; ")[-60:], "how_to_replay": "echo '%s' | %s" % (chunk[idx], exe)})
-                        o = o[:-1]
-                    else:
-                        idx = len(o)
-                        ctx.violation({"kind": "harness-died", "case": chunk[idx] if idx < len(chunk) else "?"},
-                                      {"case": chunk[idx] if idx < len(chunk) else None, "rc": rc})
-                for c, l in zip(chunk, o):
-                    outs[c] = l
-        ctx.evaluations += len(outs)
-        drv_lines, drv_cases, traces = [], [], []
-        for c in cases:
-            if c not in outs:
-                continue
-            verdict, viol, lost, trace = M.split_out(outs[c])
-            ctx.hist("verdicts", verdict)
-            ctx.count(M.shape_of(trace))
-            traces.append(trace)
-            progs = c.split(" : ", 1)[1]
-            if viol != "-" or lost or verdict == "deadlock":
-                kind = "panic" if "panic" in viol else "exclusion" if "exclusion" in viol else ("try" if "try:" in viol else ("deadlock" if verdict == "deadlock" else "lost-update"))
-                ctx.violation({"kind": kind}, {"case": c, "verdict": verdict, "oracle": viol, "lost_update": lost,
-                                                "trace": trace.split(" ; ")[-80:], "how_to_replay": "echo '%s' | %s" % (c, exe)})
-            drv_lines.append("rw %s : %s :: %s" % (cfg_bits(cfg), progs, trace))
-            drv_cases.append((c, verdict))
-        for c in cases[:3]:
-            if c in outs:
-                ctx.sample({"case": c, "result": outs[c][:400]})
-        rc, mo, err = C.run_filter([C.driver_path("drv_c02")], drv_lines, timeout=3000)
-        if len(mo) != len(drv_lines):
-            ctx.violation({"kind": "driver-failed"}, {"rc": rc, "stderr": err[-400:]}, no_input=True)
-            return
-        rejected, raced = [], []
-        for (c, verdict), line, m in zip(drv_cases, drv_lines, mo):
-            if m.startswith("reject") or m == "bad-op":
-                rejected.append((c, m))
-            elif "raced=true" in m:
-                raced.append((c, m, line))
-            elif verdict == "complete" and "finished=true" not in m:
-                rejected.append((c, "complete run but model not finished: " + m))
-            elif verdict == "deadlock" and not m.startswith("accept-deadlock"):
-                rejected.append((c, m))
-        ctx.extra["traces_validated_against_impl"] = len(drv_lines) - len(rejected)
-        ctx.extra["model_rejections"] = len(rejected)
-        obs = M.observed_orderings(traces)
-        ctx.extra["observed_orderings"] = {k: sorted(v) for k, v in sorted(obs.items())}
-        # translator validation: run-time orderings of the acquiring / releasing RMWs vs the extracted configuration
-        rt_bad = []
-        for k, v in obs.items():
-            if k.startswith("fsub0") and any(x not in REL for x in v) and cfg["readRel"] and cfg["writeRel"]:
-                rt_bad.append((k, sorted(v)))
-        if rt_bad:
-            ctx.broken.append({"translator_mismatch": rt_bad})
-            ctx.violation({"kind": "translator-mismatch"}, {"observed": rt_bad, "extracted": cfg}, no_input=True)
-        for c, m, line in raced[:3]:
-            ctx.violation({"kind": "data-race-in-model"},
-                          {"case": c, "model": m, "note": "with the memory orderings now in the source the release/acquire view model exhibits a race on the guarded data along this schedule of the real code (not observable on x86 hardware)",
-                           "driver_line": line[:3000]})
-        if rejected and not ctx.violations:
-            c, m = rejected[0]
-            ctx.broken.append({"correspondence": "rwlock-trace", "first_rejection": {"case": c, "model": m}, "count": len(rejected)})
-            ctx.violation({"kind": "model-rejects-trace"}, {"broken_correspondence": "rwlock-trace", "case": c, "model": m, "count": len(rejected),
-                                                             "note": "no oracle (exclusion, try, deadlock, lost update, livelock) failed on any explored schedule"}, no_input=True)
-    if not ok and not ctx.violations:
-        ctx.violation({"kind": "proof-broken"}, {"broken": ctx.broken,
-                                                 "note": "Props/C02.lean no longer checks against the regenerated Gen/SyncSites.lean (gen_shape_ok / gen_cfg_good) and no explored schedule fails an oracle"}, no_input=True)
+    M.run_sync(ctx, {
+        "which": "rw", "what": "read()/write()/unlock", "cases": rw_cases, "trykind": "try", "tail": 80,
+        "spin_key": "rwlock_spin", "infer_spin": M.infer_spin_rw, "obs_module": "RwObs", "table": "rwlock",
+        "lock_locs": ["state", "writer_notify"], "module": "TinyVerif.Props.C02", "driver": "drv_c02",
+        "more_props": ["TinyVerif.Props.C02Live"], "corr": "rwlock-trace",
+    })
